@@ -40,6 +40,9 @@ fn parse_cfg(args: &[String]) -> rt::Config {
     if let Some(v) = flag(args, "--f") {
         c.f = v.parse().unwrap();
     }
+    if let Some(v) = flag(args, "--k") {
+        c.k = v.parse().unwrap();
+    }
     if let Some(v) = flag(args, "--step-cap") {
         c.step_cap = v.parse().unwrap();
     }
